@@ -19,6 +19,9 @@ func init() {
 		Assumptions: []string{"proto.Merge / Marshal+Unmarshal copy; select picks a ready case"},
 		Run:         runC13,
 		Controls: []Control{
+			{Name: "revert-F41-closesend-every-time", File: "pkg/wrap/stream.go", Old: "\tc.closeSend.Do(func() {\n\t\tclose(c.clientSend)\n\t})\n", New: "\tclose(c.clientSend)\n", Expect: "R13.13"},
+			{Name: "trailer-replaced-not-joined", File: "pkg/wrap/stream.go", Old: "\ts.trailer = metadata.Join(s.trailer, md)", New: "\tfor k, v := range md {\n\t\tif s.trailer == nil {\n\t\t\ts.trailer = metadata.MD{}\n\t\t}\n\t\ts.trailer.Set(k, v...)\n\t}", Expect: "R13.11"},
+			{Name: "discard-unknown-fields", File: "pkg/wrap/stream.go", Old: "proto.UnmarshalOptions{Merge: true}", New: "proto.UnmarshalOptions{Merge: true, DiscardUnknown: true}", Expect: "R13.12"},
 			{Name: "revert-F36-headers-lost-on-early-error", File: "pkg/wrap/stream.go", Old: "\ts.headerM.Lock()\n\tselect {\n\tcase <-s.headerC:\n\tdefault:\n\t\tclose(s.headerC)\n\t}\n\ts.headerM.Unlock()\n\n\ts.closeErrM.Lock()", New: "\ts.closeErrM.Lock()", Expect: "R13.10"},
 			{Name: "incoming-metadata-only-when-outgoing", File: "pkg/wrap/wrap.go", Old: "\tctx = metadata.NewIncomingContext(ctx, md)\n", New: "\tif len(md) > 0 {\n\t\tctx = metadata.NewIncomingContext(ctx, md)\n\t}\n", Expect: "R13.4"},
 			{Name: "revert-F34-eof-is-the-outcome", File: "pkg/wrap/wrap.go", Old: "if err := cs.SendMsg(args); err != nil && err != io.EOF {", New: "if err := cs.SendMsg(args); err != nil {", More: []Edit{{File: "pkg/wrap/wrap.go", Old: "\t\"io\"\n", New: ""}}, Expect: "R13.9"},
@@ -48,6 +51,12 @@ func runC13(c *an.Ctx) {
 	r139(c)
 	c.Min("R13.9", 1)
 	r1310(c)
+	r1311(c)
+	r1312(c)
+	c.Min("R13.11", 3)
+	c.Min("R13.12", 1)
+	r1313(c)
+	c.Min("R13.13", 1)
 	c.Min("R13.10", 1)
 	c.Min("R13.8", 1)
 	c.Min("R13.1", 3)
@@ -811,4 +820,157 @@ func r139(c *an.Ctx) {
 		return
 	}
 	c.Check(bad == "", rule, cons, where, "", bad+": a unary call on an already cancelled (or expired) context returns io.EOF instead of the cancellation, and a status the server returned before reading the request is lost; grpc's own Invoke goes on to RecvMsg in that case")
+}
+
+// r1311: header and trailer metadata ACCUMULATE over the handler's calls: what SetHeader / SendHeader / SetTrailer
+// keep is metadata.Join(<what was kept so far>, md) - values added to one key in several calls all reach the
+// client, in order, as they do over a real connection.
+func r1311(c *an.Ctx) {
+	const rule = "R13.11"
+	for _, t := range [][2]string{{"SetHeader", "header"}, {"SendHeader", "header"}, {"SetTrailer", "trailer"}} {
+		fn := mustFunc(c, rule, wrapPkg, "serverStream", t[0])
+		if fn == nil {
+			continue
+		}
+		name := "(*pkg/wrap.serverStream)." + t[0]
+		c.SawFunc(name)
+		n := 0
+		an.Instrs(fn, func(in ssa.Instruction) {
+			st, ok := in.(*ssa.Store)
+			if !ok || !isStreamField(st.Addr, t[1]) {
+				return
+			}
+			n++
+			joined, replaces := false, false
+			for _, v := range an.Sources(st.Val) { // through a helper the rules have not seen
+				call, isCall := v.(*ssa.Call)
+				if !isCall {
+					continue
+				}
+				if an.CalleeName(call) == "google.golang.org/grpc/metadata.Join" {
+					// variadic: the slice holds (current, md)
+					joined = true
+				}
+			}
+			// a hand-written merge: MD.Set replaces what is there, append keeps it
+			for _, h := range an.TransparentCalleesOf(fn, 2) {
+				if len(an.CallsTo(h, "(google.golang.org/grpc/metadata.MD).Set")) > 0 {
+					replaces = true
+				}
+			}
+			if len(an.CallsTo(fn, "(google.golang.org/grpc/metadata.MD).Set")) > 0 {
+				replaces = true
+			}
+			cons := name + "|metadata given in several calls accumulates"
+			switch {
+			case replaces:
+				c.Bad(rule, cons, st.Pos(), "the "+t[1]+" metadata is merged with MD.Set, which replaces the values already kept for a key: when a handler adds to one key in more than one call only the last call's values reach the client (a real connection delivers all of them, in order)")
+			case joined:
+				c.Ok(rule, cons, st.Pos(), "metadata.Join(current, md)")
+			default:
+				c.Unk(rule, cons, st.Pos(), "the "+t[1]+" metadata kept by "+t[0]+" is not metadata.Join(current, md): the merge is not recognised")
+			}
+		})
+		if n == 0 {
+			c.Bad(rule, name+"|metadata given in several calls accumulates", fn.Pos(), t[0]+" does not keep the metadata it is given")
+		}
+	}
+}
+
+// r1312: a message crosses the boundary with everything it carries: the marshal/unmarshal path used when the two
+// sides hold different Go types keeps fields the receiving type does not declare (as unknown fields), like the
+// gRPC codec does.
+func r1312(c *an.Ctx) {
+	const rule = "R13.12"
+	fn := mustFunc(c, rule, wrapPkg, "", "permissiveProtoMerge")
+	if fn == nil {
+		return
+	}
+	name := "pkg/wrap.permissiveProtoMerge"
+	c.SawFunc(name)
+	bad := ""
+	var where token.Pos = fn.Pos()
+	// every UnmarshalOptions value of the package: built in place, in a helper, or kept in a package variable
+	// (initialised by the package initialiser)
+	scope := c.Prog.FuncsIn(wrapPkg)
+	if sp := c.Prog.SSAPackage(wrapPkg); sp != nil {
+		if ini := sp.Func("init"); ini != nil {
+			scope = append(scope, ini)
+		}
+	}
+	for _, f := range scope {
+		an.Instrs(f, func(in ssa.Instruction) {
+			st, ok := in.(*ssa.Store)
+			if !ok {
+				return
+			}
+			_, sn, fld, isF := an.FieldOf(st.Addr)
+			if !isF || !strings.HasSuffix(sn, "proto.UnmarshalOptions") {
+				return
+			}
+			if b, isC := an.ConstBool(st.Val); fld == "DiscardUnknown" && (!isC || b) {
+				bad, where = "the unmarshal options discard unknown fields", st.Pos()
+			}
+		})
+	}
+	c.Check(bad == "", rule, name+"|unknown fields survive the copy", where, "UnmarshalOptions leave DiscardUnknown off",
+		bad+": fields the receiving message type does not declare are dropped at the boundary, so a forwarder that receives into a generic type and re-marshals loses the payload, and a server no longer sees fields sent by a newer client (over a real connection they are kept as unknown fields)")
+}
+
+// r1313: half-closing is idempotent. A real client stream accepts CloseSend any number of times; the wrapped one
+// closes a channel, which Go allows once: the close of clientSend runs inside a sync.Once (or under a mutex behind a
+// not-yet-closed test, like headerC).
+func r1313(c *an.Ctx) {
+	const rule = "R13.13"
+	w := lockWorld(c)
+	n := 0
+	for _, fn := range c.Prog.FuncsIn(wrapPkg) {
+		an.Instrs(fn, func(in ssa.Instruction) {
+			call, ok := in.(*ssa.Call)
+			if !ok || an.CalleeName(call) != "builtin close" {
+				return
+			}
+			isClientSend := isStreamField(call.Call.Args[0], "clientSend")
+			for _, s0 := range an.Sources(call.Call.Args[0]) {
+				isClientSend = isClientSend || isStreamField(s0, "clientSend")
+			}
+			if !isClientSend {
+				return
+			}
+			n++
+			// inside a function handed to (*sync.Once).Do
+			once := false
+			top := fn
+			for f := fn; f != nil; f = f.Parent() {
+				top = f
+				if f.Parent() == nil {
+					break
+				}
+				an.Instrs(f.Parent(), func(x ssa.Instruction) {
+					if cl, isCall := x.(*ssa.Call); isCall && an.CalleeName(cl) == "(*sync.Once).Do" && len(cl.Call.Args) == 2 {
+						if an.ClosureFn(cl.Call.Args[1]) == f {
+							once = true
+						}
+					}
+				})
+			}
+			// or: under a mutex, behind a test that it has not happened yet
+			guarded := false
+			locked := false
+			for _, m := range w.At(call) {
+				if m >= an.WLock {
+					locked = true
+				}
+			}
+			if locked && len(an.GuardingEdges(call)) > 0 {
+				guarded = true
+			}
+			c.SawFunc(an.FuncName(top))
+			c.Check(once || guarded, rule, an.FuncName(top)+"|the send direction is closed at most once", call.Pos(), "close(clientSend) runs once",
+				"close(clientSend) runs on every CloseSend: a second CloseSend panics (close of closed channel) where a real client stream returns nil")
+		})
+	}
+	if n == 0 {
+		c.Unk(rule, "pkg/wrap.clientStream|half-close", 0, "clientSend is never closed: the server never sees the end of the client's messages")
+	}
 }
